@@ -10,6 +10,7 @@ Generated:
   typeVarBranch       whether type_map(type_from_format(x)) == x
   newGuard            how DataClassPayload(.WID).__new__ reach convert_to_payload: always | ifNoFormatList | oncePerClass
                       (AST; for an unrecognised spelling a probe on the live classes) | unknown
+  publishPolicy       how convert_to_payload updates the module attribute of a converted class (probe on the live code)
   shipped             every VariablePayload subclass defined in the ipv8 package outside ipv8.test:
                       format_list (strings / nested classes / [class]), names, hooks found with dir(), and the
                       `__init__` defined in the class body, if any (parameters must be exactly the field names,
@@ -528,6 +529,39 @@ def lean_dcase(name, fields, user, result) -> str:
             + ", result := " + res + " }")
 
 
+def publish_policy():
+    """probe on the live convert_to_payload: convert two dataclass payloads of ONE name in turn and look at the module
+    attribute after each: 'always' (it is the class converted last, both times), 'onlyIfAbsent' (it stays the first),
+    else 'unknown'"""
+    import dataclasses
+    import types
+    if str(REPO) not in sys.path:
+        sys.path.insert(0, str(REPO))
+    from ipv8.messaging.payload_dataclass import DataClassPayload
+    modname = "c20_publish_probe"
+    sys.modules[modname] = types.ModuleType(modname)
+    seen = []
+    classes = []
+    try:
+        for _ in range(3):
+            cls = dataclasses.make_dataclass("PublishProbe", [("a", int)], bases=(DataClassPayload,))
+            cls.__module__ = modname
+            cls(1)
+            classes.append(cls)
+            seen.append(getattr(sys.modules[modname], "PublishProbe", None))
+        classes[0](2)       # converting the first class again publishes it again
+        seen.append(getattr(sys.modules[modname], "PublishProbe", None))
+    except Exception:  # noqa: BLE001
+        return "unknown"
+    finally:
+        sys.modules.pop(modname, None)
+    if seen == [classes[0], classes[1], classes[2], classes[0]]:
+        return "always"
+    if all(x is classes[0] for x in seen):
+        return "onlyIfAbsent"
+    return "unknown"
+
+
 def overlay_formats():
     out = []
     for path in sorted((REPO / "ipv8").rglob("*.py")):
@@ -559,6 +593,7 @@ def translate():
            "def arrayPrefix : String := " + lstr(prefix), "",
            "def typeVarBranch : Bool := " + ("true" if tv else "false"), "",
            "def newGuard : NewGuard := ." + new_guard(), "",
+           "def publishPolicy : PublishPolicy := ." + publish_policy(), "",
            "def shipped : List SDef := ["]
     rows = []
     meta = {"registered_formats": len(formats), "type_map_table": table, "shipped": 0, "shipped_with_hooks": 0,
